@@ -175,6 +175,10 @@ func runC06(c *Ctx) {
 		// sinks than a handful behind one Sync
 		lvl := []zapcore.Level{zapcore.DebugLevel, zapcore.ErrorLevel, zapcore.PanicLevel, zapcore.FatalLevel}[g.Draw(4)]
 		var members []zapcore.WriteSyncer
+		shortAt := -1
+		if c.F.Chance(2) {
+			shortAt = c.F.Draw(5)
+		}
 		for i := 0; i < 5+g.Draw(3); i++ {
 			lf := &c06leaf{sink: zsim.NewSimSink(r, fmt.Sprintf("disk%d", i), 1, uint64(g.Draw(1<<16))+1), level: lvl}
 			r.Label(unsafe.Pointer(lf.sink), lf.sink.Name)
@@ -184,6 +188,16 @@ func runC06(c *Ctx) {
 				members = append(members, lf.bws)
 			} else {
 				members = append(members, lf.sink)
+				if i == shortAt {
+					// a terminal-like device that takes part of every line and says
+					// so, without an error: its own content is not judged, the
+					// other members' is
+					for j := 0; j < 64; j++ {
+						lf.sink.WritePlan = append(lf.sink.WritePlan, zsim.Outcome{Short: 1 + c.F.Draw(5)})
+					}
+					lf.faulty = true
+					c.Fault("short-count-without-error")
+				}
 			}
 			w.leaves = append(w.leaves, lf)
 		}
